@@ -277,6 +277,7 @@ def decl_in_block(p):
 
 
 def _rename(prog, slot, new):
+    """replace every occurrence of `slot` by `new` (a concrete string or another Slot)"""
     q = prog.clone()
     for l in q.lines:
         l.parts = [new if (isinstance(x, Slot) and x.id == slot.id) else x for x in l.parts]
@@ -404,6 +405,44 @@ def label(p):
         i = ls[0] - 1
         q.lines[i].parts = ["end:"]
         yield q, ls
+
+
+@op("45b_ternary_elsewhere", "TERNARY_FBIDDEN")
+def ternary_elsewhere(p):
+    """a ternary as call argument, in a return value, in a condition"""
+    for i in spread_by_kind(p, [i for i in lines_of(p, "stmt") if p.lines[i].meta.get("stmt") in ("call", "return")], 4):
+        l = p.lines[i]
+        parts = list(l.parts)
+        if l.meta.get("stmt") == "call" and "(" in parts and parts[-1] == ");":
+            k = parts.index("(")
+            q = mod_line(p, i, parts[:k + 1] + ["zz ? 1 : 2", ");"])
+            yield q, [i + 1], "call-argument"
+        elif l.meta.get("stmt") == "return" and "return (" in parts and parts[-1] == ");":
+            k = parts.index("return (")
+            q = mod_line(p, i, parts[:k + 1] + ["zz ? 1 : 2", ");"])
+            yield q, [i + 1], "return-value"
+    for i in spread_by_kind(p, lines_of(p, "ctrl"), 3):
+        l = p.lines[i]
+        if l.meta.get("kw") in ("if", "while", "else if"):
+            yield mod_line(p, i, [l.parts[0], l.meta["kw"] + " (zz ? 1 : 2)"]), [i + 1], "condition"
+
+
+@op("78b_tag_without_prefix", "STRUCT_TYPE_NAMING", "ENUM_TYPE_NAMING", "UNION_TYPE_NAMING")
+def tag_without_prefix(p):
+    for i in lines_of(p, "utype_open"):
+        l = p.lines[i]
+        if l.meta.get("plain") and isinstance(l.meta.get("tag"), Slot):
+            tag = l.meta["tag"]
+            new = Slot("idnp", "x" + tag.default[1:].replace("_", "a", 1) if len(tag.default) > 2 else "xa", "tag")
+            yield _rename(p, tag, new), [i + 1]
+
+
+@op("79_declaration_before_guard", "HEADER_PROT_ALL")
+def decl_before_guard(p):
+    for i in lines_of(p, "guard_ifndef"):
+        q = p.clone()
+        q.lines[i:i] = [Line(["int\tearly(void);"], "proto"), Line([""], "blank")]
+        yield q, [i + 3]
 
 
 @op("45_ternary", "TERNARY_FBIDDEN")
